@@ -1088,7 +1088,10 @@ def evalAll (env : Env) (lk : Lookup) : List Stmt → Val → Outcome Val
     let r ← evalStmt env lk s (.doc 0)
     evalAll env lk ss r
 
-/-- `Engine.Evaluate` without the recover -/
+/-- `Engine.Evaluate` without the recover.  The document statements are prepended for this
+    evaluation only: Evaluate puts `Engine.Statements` back when it returns (also on an error), so
+    the result is a function of the parsed program and the documents — evaluating a compiled
+    query again gives what a freshly compiled one gives (tied by the engine-state stream of C16). -/
 def evalRaw (now : Nat) (guard : Bool) (fuel : Nat) (docs : List Forest) (eng : Engine) : Outcome Val :=
   if docs.isEmpty then .panic .noDocuments else
   let env := mkEnv now docs eng
